@@ -1,4 +1,259 @@
-import GunYu.Model.Sender
-import GunYu.Model.Target
+/-
+  C01 — Incremental replay applies every source write once, in order, in the
+  right database (uninterrupted run, healthy target).
+
+  Layers (model files Sender.lean / Target.lean, tied to the Go code by the
+  correspondence harness under virtual time):
+    parser  `parseStep`/`parseAll` : decoded source commands → items
+    sender  `run`                  : items × ticks (ANY schedule) → batches
+    target  `applyLog`             : batches → executed commands with their DB
+-/
+import GunYu.Proofs.SenderRun
+import GunYu.Proofs.TargetSeq
+import GunYu.Proofs.Parser
+
 namespace GunYu.Props.C01
+open GunYu GunYu.Sender GunYu.Target
+
+/-! ### Sender: nothing dropped, duplicated, reordered, altered or invented -/
+
+/-- For every configuration (batch limits, transactional or ticker mode,
+    resumable or not) and EVERY schedule (any interleaving of items with batch,
+    keep-alive and checkpoint ticks), the data commands put on the wire followed
+    by those still queued are exactly the forwarded stream `fwd` — the items in
+    order minus keep-alives and transaction brackets. -/
+theorem forwarded_exact (c : SCfg) (evs : List Ev) :
+    dataOut (run c initS evs).2 ++ qd (run c initS evs).1 = fwd .no evs := by
+  have h := run_data c initS evs
+  simpa [qd, initS] using h
+
+/-- what is on the wire is always a prefix of the forwarded stream -/
+theorem wire_prefix (c : SCfg) (evs : List Ev) :
+    dataOut (run c initS evs).2 <+: fwd .no evs :=
+  ⟨_, forwarded_exact c evs⟩
+
+/-- events with no `done` among them -/
+def NoDone (evs : List Ev) : Prop := ∀ e ∈ evs, e ≠ .done
+
+theorem run_append_done (c : SCfg) (s : SState) (evs : List Ev) (hnd : NoDone evs) :
+    run c s (evs ++ [.done]) =
+      ((step c (run c s evs).1 .done).1, (run c s evs).2 ++ (step c (run c s evs).1 .done).2) := by
+  induction evs generalizing s with
+  | nil => simp [run]
+  | cons ev rest ih =>
+    have hne : ev ≠ .done := hnd ev (List.mem_cons_self ..)
+    have hrest : NoDone rest := fun e he => hnd e (List.mem_cons_of_mem _ he)
+    simp only [List.cons_append, run, hne, ↓reduceIte]
+    rw [ih _ hrest]
+    simp [List.append_assoc]
+
+theorem inTxn_false_plain (c : SCfg) (hc : c.txnMode = false) (s : SState) (hs : s.inTxn = false)
+    (ev : Ev) : (step c s ev).1.inTxn = false := by
+  have tl : ∀ (s : SState) tb up out, s.inTxn = false → (tail c s tb up out).1.inTxn = false := by
+    intro s tb up out h
+    unfold tail; simp only
+    split
+    · rfl
+    · split
+      · rfl
+      · exact h
+  cases ev with
+  | item it =>
+    simp only [step]
+    split
+    · exact hs
+    · unfold stepItem; simp only [hc, Bool.false_eq_true, ↓reduceIte]
+      unfold stepItemPlain
+      split
+      · exact hs
+      · split
+        · exact tl _ _ _ _ hs
+        · exact tl _ _ _ _ (by simpa [enqueue] using hs)
+  | batchTick => simp only [step]; split <;> exact tl _ _ _ _ (by simpa using hs)
+  | keepaliveTick =>
+    simp only [step]
+    split
+    · split <;> exact tl _ _ _ _ (by simpa using hs)
+    · exact tl _ _ _ _ hs
+  | cpTick => simp only [step]; split <;> exact tl _ _ _ _ (by simpa using hs)
+  | done => simp only [step]; split <;> exact tl _ _ _ _ (by simpa using hs)
+
+theorem run_inTxn_false_plain (c : SCfg) (hc : c.txnMode = false) (s : SState) (hs : s.inTxn = false)
+    (evs : List Ev) : (run c s evs).1.inTxn = false := by
+  induction evs generalizing s with
+  | nil => exact hs
+  | cons ev rest ih =>
+    simp only [run]
+    split
+    · exact inTxn_false_plain c hc s hs ev
+    · exact ih _ (inTxn_false_plain c hc s hs ev)
+
+/-- In ticker (non-transactional) mode the end of a run flushes everything:
+    after `done` the wire carries the WHOLE forwarded stream — nothing dropped. -/
+theorem done_flushes_all (c : SCfg) (hc : c.txnMode = false) (evs : List Ev) (hnd : NoDone evs) :
+    dataOut (run c initS (evs ++ [.done])).2 = fwd .no (evs ++ [.done]) := by
+  have h := forwarded_exact c (evs ++ [.done])
+  have hq : (run c initS (evs ++ [.done])).1.queue = [] := by
+    rw [run_append_done c initS evs hnd]
+    simp only [step]
+    have hin := run_inTxn_false_plain c hc initS rfl evs
+    simp only [hin, hc, Bool.not_false, Bool.and_self, ↓reduceIte]
+    exact tail_forced_queue_nil _ _ _ _ _ rfl
+  simpa [qd, hq] using h
+
+/-! ### The forwarded stream is the item stream minus the documented removals -/
+
+def isBracketOrPing (n : Bytes) : Bool := n == bPing || n == bMulti || n == bExec
+
+/-- transactions are not nested (Redis never propagates a MULTI inside a
+    MULTI); `inT` = currently between MULTI and EXEC -/
+def NoNested : Bool → List Ev → Prop
+  | _, [] => True
+  | inT, .item it :: rest =>
+    if it.cmd = bMulti then inT = false ∧ NoNested true rest
+    else if it.cmd = bExec then NoNested false rest
+    else NoNested inT rest
+  | inT, _ :: rest => NoNested inT rest
+
+def inT : Txn → Bool
+  | .begin_ => true
+  | .in_ => true
+  | _ => false
+
+def plainItems : List Ev → List Cmd
+  | [] => []
+  | .item it :: rest =>
+    (if isBracketOrPing it.cmd then [] else [(it.cmd, it.args)]) ++ plainItems rest
+  | _ :: rest => plainItems rest
+
+/-- For well-bracketed streams the forwarded stream is exactly: every item that
+    is not a keep-alive or a transaction bracket (database switches ARE
+    forwarded — as `select <mapped db>` items built by the parser), in order. -/
+theorem fwd_eq_plainItems (t : Txn) (evs : List Ev) (hnd : NoDone evs) (hnn : NoNested (inT t) evs) :
+    fwd t evs = plainItems evs := by
+  induction evs generalizing t with
+  | nil => rfl
+  | cons ev rest ih =>
+    have hne : ev ≠ .done := hnd ev (List.mem_cons_self ..)
+    have hrest : NoDone rest := fun e he => hnd e (List.mem_cons_of_mem _ he)
+    cases ev with
+    | item it =>
+      simp only [fwd, fwd1, plainItems, reduceCtorEq, ↓reduceIte]
+      by_cases hp : it.cmd = bPing
+      · simp only [hp, ↓reduceIte, isBracketOrPing, beq_self_eq_true, Bool.true_or, List.nil_append]
+        have hnn' : NoNested (inT t) rest := by
+          have h1 : bPing ≠ bMulti := by decide
+          have h2 : bPing ≠ bExec := by decide
+          simpa [NoNested, hp, h1, h2] using hnn
+        exact ih t hrest hnn'
+      · by_cases hm : it.cmd = bMulti
+        · have hnn' : inT t = false ∧ NoNested true rest := by simpa [NoNested, hm] using hnn
+          have hst : txnStatus bMulti t = (Txn.begin_, true) := by
+            cases t <;> simp_all [inT, txnStatus, cmdClass, bMulti, bSelect]
+          have hpm : bMulti ≠ bPing := by decide
+          simp only [hm, hpm, ↓reduceIte, hst, forwards, isBracketOrPing]
+          simp only [bne_self_eq_false, Bool.false_and, Bool.false_eq_true, ↓reduceIte,
+            List.nil_append, beq_self_eq_true, Bool.or_true, Bool.true_or]
+          exact ih _ hrest (by simpa [inT] using hnn'.2)
+        · by_cases he : it.cmd = bExec
+          · have hem : bExec ≠ bMulti := by decide
+            have hnn' : NoNested false rest := by simpa [NoNested, he, hem] using hnn
+            have hst : (txnStatus bExec t).1 = Txn.commit := by
+              cases t <;> simp [txnStatus, cmdClass, bMulti, bSelect, bExec]
+            have hpe : bExec ≠ bPing := by decide
+            simp only [he, hpe, ↓reduceIte, hst, forwards, isBracketOrPing]
+            simp only [bne_self_eq_false, Bool.and_false, Bool.false_eq_true, ↓reduceIte,
+              List.nil_append, beq_self_eq_true, Bool.or_true]
+            exact ih _ hrest (by simpa [inT] using hnn')
+          · have hnn' : NoNested (inT t) rest := by simpa [NoNested, hm, he] using hnn
+            have hcls : cmdClass it.cmd = none ∨ cmdClass it.cmd = some Txn.barrier := by
+              unfold cmdClass; simp only [hm, he, ↓reduceIte]
+              by_cases hs : it.cmd = bSelect <;> simp [hs]
+            have hst : forwards (txnStatus it.cmd t).1 = true ∧ inT (txnStatus it.cmd t).1 = inT t := by
+              rcases hcls with h | h <;> cases t <;> simp [txnStatus, h, forwards, inT]
+            have hb : isBracketOrPing it.cmd = false := by
+              simp [isBracketOrPing, hp, hm, he]
+            simp only [hp, ↓reduceIte, hst.1, hb, Bool.false_eq_true]
+            congr 1
+            exact ih _ hrest (by rw [hst.2]; exact hnn')
+    | batchTick => simpa [fwd, fwd1, plainItems] using ih t hrest (by simpa [NoNested] using hnn)
+    | keepaliveTick => simpa [fwd, fwd1, plainItems] using ih t hrest (by simpa [NoNested] using hnn)
+    | cpTick => simpa [fwd, fwd1, plainItems] using ih t hrest (by simpa [NoNested] using hnn)
+    | done => exact absurd rfl hne
+
+/-! ### Target: executed in wire order, each command in the database chosen by
+    the latest forwarded database switch -/
+
+/-- For every schedule, after the target has executed everything the run sent
+    (from a state with no open MULTI): no MULTI is open; the executed data
+    commands are `seqApplied` of the forwarded prefix on the wire — i.e. wire
+    order, each tagged with the DB selected by the latest forwarded `select`. -/
+theorem executed_in_order (c : SCfg) (evs : List Ev) (t : TState) (hq : t.queued = none) :
+    let out := (run c initS evs).2
+    (applyLog t out.flatten).queued = none ∧
+    (applyLog t out.flatten).applied = t.applied ++ (seqApplied t.cur (dataOut out)).2 :=
+  let h := applyLog_out (run c initS evs).2 (run_wf c initS evs) t hq
+  ⟨h.1, h.2.2⟩
+
+/-! ### Parser: which source commands become items (decision logic) -/
+
+/-- a source `SELECT n` to an unfiltered database puts the parser in the MAPPED
+    database and forwards `select <mapped>` exactly when the mapped database
+    changes -/
+theorem select_maps_db (c : PCfg) (s : PState) (a : Bytes) (n : Int) (off : Int)
+    (ha : atoi? a = some n) (hn : 0 ≤ n) (hdb : c.filterDb n = false)
+    (hk : (c.filterCmdKey bSelect [a]).isSome) :
+    (parseStep c s { cmd := bSelect, args := [a], off := off }).1 =
+        { currentDB := mapDb c n, bypass := false } ∧
+    (parseStep c s { cmd := bSelect, args := [a], off := off }).2 =
+        (if mapDb c n ≠ s.currentDB then POut.emit (selectItem (mapDb c n) off) else POut.skip) :=
+  parseStep_select c s a n off ha hn hdb hk
+
+/-- the forwarded `select` item selects exactly that database on the target -/
+theorem forwarded_select_selects (cur db : Int) (off : Int) :
+    selArg cur (selectItem db off).args = db := selArg_selectItem cur db off
+
+theorem select_filtered_db_bypasses (c : PCfg) (s : PState) (a : Bytes) (n : Int) (off : Int)
+    (ha : atoi? a = some n) (hdb : c.filterDb n = true) :
+    parseStep c s { cmd := bSelect, args := [a], off := off } =
+      ({ s with bypass := true }, POut.skip) :=
+  parseStep_select_filtered c s a n off ha hdb
+
+/-- an ordinary command is forwarded iff not bypassed, not blacklisted, not the
+    sentinel hello and its keys pass; forwarded = same name, exactly the
+    filtered arguments, its END offset, the parser's current database -/
+theorem data_command_forwarded_iff (c : PCfg) (s : PState) (r : Raw)
+    (hp : r.cmd ≠ bPing) (hs : r.cmd ≠ bSelect) :
+    parseStep c s r =
+      (s, if c.filterCmd r.cmd then POut.skip
+          else if r.cmd = bPublish ∧ (r.args.head?.map lower) = some bSentinelHello then POut.skip
+          else if s.bypass then POut.skip
+          else match c.filterCmdKey r.cmd r.args with
+            | none => POut.skip
+            | some a => POut.emit { cmd := r.cmd, args := a, offset := r.off, db := s.currentDB }) :=
+  parseStep_data c s r hp hs
+
+/-- the parser never reorders, duplicates or invents: emitted offsets are a
+    subsequence of the source commands' offsets -/
+theorem parser_keeps_order (c : PCfg) (s : PState) (raws : List Raw) :
+    List.Sublist ((parseAll c s raws).map (·.offset)) (raws.map (·.off)) :=
+  parseAll_offsets_sublist c s raws
+
+/-! Non-vacuity -/
+def exCfg : SCfg := { txnMode := false, resume := true, batchCount := 2, batchBytes := 1000 }
+def exSet (k : UInt8) (off : Int) : Ev :=
+  .item { cmd := [115,101,116], args := [[k],[118]], offset := off, db := 1 }
+def exEvs : List Ev :=
+  [ .item (selectItem 1 23), exSet 97 50, .item { cmd := bPing, args := [], offset := 64, db := 1 },
+    .item { cmd := bMulti, args := [], offset := 79, db := 1 }, exSet 98 106,
+    .item { cmd := bExec, args := [], offset := 120, db := 1 }, .keepaliveTick, exSet 99 147 ]
+
+example : NoDone exEvs := by intro e he; simp [exEvs, exSet] at he; rcases he with h|h|h|h|h|h|h|h <;> simp [h]
+example : NoNested (inT .no) exEvs := by
+  simp [exEvs, exSet, NoNested, inT, selectItem, bSelect, bMulti, bExec, bPing]
+example : (seqApplied 0 (dataOut (run exCfg initS (exEvs ++ [.done])).2)).2 =
+    [ { db := 1, name := [115,101,116], args := [[97],[118]] },
+      { db := 1, name := [115,101,116], args := [[98],[118]] },
+      { db := 1, name := [115,101,116], args := [[99],[118]] } ] := by decide +kernel
+
 end GunYu.Props.C01
